@@ -75,7 +75,7 @@ def value_of(t):
 @st.composite
 def case_strategy(draw):
     ntypes = draw(st.integers(1, 3))
-    tnames = draw(st.lists(st.one_of(gen.type_name(), st.sampled_from(["select", "table/order", "a/b", "Group"])),
+    tnames = draw(st.lists(st.one_of(gen.type_name(), st.sampled_from(["select", "table/order", "a/b", "Group", "sqlite/row", "sqlite3/t", "SQLiteDb", "sqlite"])),
                            min_size=ntypes, max_size=ntypes, unique_by=lambda s: s.lower()))
     versions = []  # (type name, fields)
     for tn in tnames:
